@@ -34,7 +34,15 @@ def handler (mode : String) (line : String) : String :=
                   | some (.list [.atom "stale-case"]) => "fail clause=stale-case"
                   | some ot =>
                       match obs? ot with
-                      | some o => Spec.verdictStr i (Spec.check i o)
+                      | some o =>
+                          -- besides the property: the model's negotiate must agree with the RFC-level reading of the
+                          -- capability sets that the spec uses (hypothesis `negAgree` of the master theorem)
+                          let agree : Bool := match i.msg with
+                            | .reach f .. | .unreach f _ => !Spec.buildable i || Spec.negAgree i f
+                            | _ => true
+                          match Spec.check i o with
+                          | .ok => if agree then "ok" else "fail clause=negotiate-differs-from-rfc-reading"
+                          | v => Spec.verdictStr i v
                       | none => "fail clause=unparsable-observation"
                   | none => "fail clause=unparsable-observation"
               | none => "(bad-case)"
